@@ -75,6 +75,10 @@ def block(k, inst, cpp20):
         ls.append('extern "C" %s w_add_%d(P%d x, Q%d y) { %s return (a + b).in(%s{}); }' % (rt, k, k, k, pre, cu))
         ls.append('extern "C" %s w_sub_%d(P%d x, Q%d y) { %s return (a - b).in(%s{}); }' % (rt, k, k, k, pre, cu))
         names += ["add", "sub"]
+        qa, qb = "au::make_quantity<U%d>(P%d{})" % (k, k), "au::make_quantity<V%d>(Q%d{})" % (k, k)
+        for op in "+-":
+            ls.append('static_assert(std::is_same<decltype(%s %s %s), au::Quantity<%s, %s>>::value, "a %s b is a quantity of the common unit whose rep is what the raw operator gives for the common rep");'
+                      % (qa, op, qb, cu, rt, op))
         if model.is_int(inst.r1) and model.is_int(inst.r2):
             ls.append('extern "C" %s w_mod_%d(P%d x, Q%d y) { %s return (a %% b).in(%s{}); }' % (rt, k, k, k, pre, cu))
             names.append("mod")
@@ -256,6 +260,13 @@ def analyse(ctx, mod, k, inst, names, cpp20, findings):
                     continue
                 rcb = model.INT_TYPES[model.canon(inst.rc)][0]
                 bad = [p.op for p in a.premises if p.op not in ("mul", "sext", "zext", "add", "sub") and not (p.op == "trunc" and rcb < 32 and p.ty == "i%d" % rcb)]
+                # a sub-int common rep may be re-narrowed after each OPERAND is scaled (that is the
+                # premise 'scaling does not overflow the common rep'), never after the sum is formed
+                for p in a.premises:
+                    if p.op == "trunc":
+                        inner = dag.affine(p.args[0], uns)
+                        if inner is not None and len(inner.coef) > 1:
+                            bad.append("the %s itself is narrowed to %s" % ("sum" if nm == "add" else "difference", p.ty))
                 if bad:
                     findings.append((key, "%s of %s: unexpected steps %s\nDAG: %s" % (nm, inst.key, bad, d.ret.pretty())))
                     continue
@@ -324,8 +335,13 @@ def body(ctx):
             if i.compiles() and i.key not in {x.key for x in insts}:
                 insts.append(i)
     else:
-        rnd.shuffle(insts)
-        insts = insts[:110]
+        # always keep the pairs of DIFFERENT units whose common rep is narrower than int (the result
+        # rep is then the promoted one and nothing may narrow it back): there are only a few
+        must = [i for i in insts if model.is_int(i.rc) and model.INT_TYPES[model.canon(i.rc)][0] < 32 and i.m1 != i.m2]
+        rest = [i for i in insts if i not in must]
+        rnd.shuffle(rest)
+        insts = must + rest[:max(0, 110 - len(must))]
+        ctx.require(len(must) >= 4, "only %d sub-int mixed-unit instances" % len(must))
     ctx.log("%d instances (rep pair x unit pair) permitted by the documented policy" % len(insts))
     prelude = "#include <cstdint>\n#include <type_traits>\n#include \"au/au.hh\"\n" + USING
     findings = []
